@@ -501,7 +501,8 @@ fn skey(s: &Scalar4) -> [(u8, i32, u64); 4] {
 }
 
 fn coefficient_max(s: &Scalar4) -> f64 {
-    s.raw_parts().iter().map(|&(_, e, v)| (v as f64) * 2f64.powi(e.clamp(-1070, 1000))).fold(0.0, f64::max)
+    // two factors: powi(-1060) alone evaluates 1 / 2^1060 = 1 / inf = 0
+    s.raw_parts().iter().map(|&(_, e, v)| { let e = e.clamp(-1130, 1000); (v as f64) * 2f64.powi(e / 2) * 2f64.powi(e - e / 2) }).fold(0.0, f64::max)
 }
 
 /// judge one scalar against its model; `path` is the history that produced it
@@ -613,7 +614,13 @@ pub fn explore_scalars(rep: &mut Report, quick: bool) {
         }
     }
     let mut capped = false;
-    for _level in 0..depth {
+    for level in 0..depth + 1 {
+        if level == depth {
+            // one extra level from the states with an unusual representation: a zero coefficient that carries the
+            // approx flag (left by a cancellation); these are few, and the flag must survive the next operation
+            frontier.retain(|(s, _, _)| s.raw_parts().iter().any(|c| c.2 == 0 && c.0 & 2 != 0));
+            total.add("flagged_zero_states_extended", frontier.len() as u64);
+        }
         // expand the frontier in parallel, then merge (deterministic order)
         let results: Vec<(Stats, Vec<(Scalar4, Model, Vec<SOp>)>)> = {
             use rayon::prelude::*;
